@@ -862,6 +862,72 @@ def pregate_stat_obligations(ctx, rep, rule, eff):
                     "ValueError, which escapes and leaves the client without a reply" if missing else "", key=f"{rule}|{m.qualname}|{norm(call.func)}")
 
 
+def pregate_flow_obligations(ctx, rep, rule, eff):
+    """What the stat on the unfiltered selector found may only be handed on to the handlers (which look at it after
+    their filter): it must not steer the multiplexer itself or reach its reply, or the reply tells a client whether a
+    path outside the root exists."""
+    from ..structure import parents
+    pre = pregate_functions(ctx, eff)
+    for m, H in pre:
+        if H is not None:
+            continue
+        stat_calls = [call for call, t in eff.calls_of(m, H) if eff.is_vfs_call(t) and t.funcs[0].name in ("stat", "listdir", "open", "exists", "isdir", "isfile")]
+        if not stat_calls:
+            continue
+        pm = parents(m.node)
+        held = {}
+        for call in stat_calls:
+            cur = call
+            while cur is not None and not isinstance(cur, ast.stmt):
+                cur = pm.get(cur)
+            if isinstance(cur, (ast.Assign, ast.AnnAssign)):
+                tg = cur.targets if isinstance(cur, ast.Assign) else [cur.target]
+                for t_ in tg:
+                    if isinstance(t_, ast.Name):
+                        held[t_.id] = call
+            elif cur is not None and not isinstance(cur, ast.Expr):
+                rep.fail(rule, f"{m.qualname}: {norm(call)[:50]}", ctx.where(m, call),
+                         "the result of a look at the unfiltered selector is used directly in a statement of the multiplexer "
+                         "(only the handlers, after their filter, may look at it)", key=f"{rule}|{m.qualname}|direct|{norm(call.func)}")
+            # the handlers of the try around it must not answer themselves
+            for tr in enclosing_tries(m.node, call):
+                for hd in tr.handlers:
+                    bad = [n for st_ in hd.body for n in ast.walk(st_) if isinstance(n, (ast.Raise, ast.Return, ast.Continue, ast.Break))
+                           or (isinstance(n, ast.Call))]
+                    rep.add(rule, f"{m.qualname}: failure of {norm(call.func)} is only noted", not bad, ctx.where(m, hd),
+                            "the handler of a failing look at the unfiltered selector answers or branches by itself: missing and "
+                            "present paths outside the root get different replies" if bad else "",
+                            key=f"{rule}|{m.qualname}|except|{norm(call.func)}")
+        for name, call in held.items():
+            problems = []
+            for n in ast.walk(m.node):
+                if not (isinstance(n, ast.Name) and n.id == name and isinstance(n.ctx, ast.Load)):
+                    continue
+                par = pm.get(n)
+                ok = False
+                if isinstance(par, ast.Call) and (n in par.args):
+                    ok = True
+                elif isinstance(par, ast.keyword):
+                    ok = True
+                # ... but not inside a raise / return / test
+                cur = n
+                while cur is not None and not isinstance(cur, ast.stmt):
+                    nxt = pm.get(cur)
+                    if isinstance(nxt, (ast.If, ast.While, ast.IfExp, ast.Assert)) and getattr(nxt, "test", None) is cur:
+                        ok = False
+                    cur = nxt
+                if isinstance(cur, (ast.Raise, ast.Return)) and not (isinstance(cur, ast.Return) and isinstance(par, ast.Call)):
+                    ok = False
+                if isinstance(cur, ast.Raise):
+                    ok = False
+                if not ok:
+                    problems.append(f"line {n.lineno}: `{norm(pm.get(n))[:50]}`")
+            rep.add(rule, f"{m.qualname}: {name} (from {norm(call.func)}) only reaches the handlers", not problems, ctx.where(m, call),
+                    "what the stat on the unfiltered selector found steers the multiplexer or its reply (" + "; ".join(problems[:3]) +
+                    "): a selector that climbs out of the root is answered differently depending on what exists there" if problems else "",
+                    key=f"{rule}|{m.qualname}|{name}")
+
+
 
 def _collapses_lines(expr, name) -> bool:
     """Does `expr` compute `name` with every CR/LF removed or replaced?"""
